@@ -18,6 +18,11 @@ CHECKS = {
     note="Hypothesis of the verifier-level theorems: statement ids unique within a phase. The iteration order of each depends_on frozenset is read off the real object. Message wording is not modelled (only kinds).",
     technique="Lean 4 proof (DFS frame invariant, potential function, case analysis) over hand-written model; exhaustive small-scope + random differential correspondence; independent Kahn oracle",
     ref="7/C10"),
+ "C04": dict(
+    text="Lean 4 theorems over the model of ExecutionController (reset / update_plan with its recursive add_with_deps / the pop-execute loop) for an ARBITRARY target (guard false / executed with any list of dynamically requested statements / abort) and arbitrary iteration orders of the dependency sets: the plan invariant (no duplicates, disjoint from executed, dependencies executed or planned earlier) survives every plan update and every pop; the statement popped has all its dependencies visited and was not visited before; with the sinks as roots the initial plan contains every statement (every node of a finite acyclic graph lies below a sink); a step that is not cut short visits every statement exactly once; a step that is cut short visits a duplicate-free dependency-closed prefix; the controller never fails on a well-formed phase (fuel = recursion depth is sufficient). Correspondence: the real controller driven by a logging mock target on every DAG of <= 4 statements x guard valuations, abort positions, plus random DAGs with dynamic requests, partial roots, dangling ids; frozenset iteration orders are read off the real objects so logs must match exactly.",
+    note="WF hypothesis (dependencies resolve in the phase, bounded rank function) is what C10.accept_implies_consumers_safe proves for accepted methods. The pinned tree spliced a requested statement in front of its planned-but-unexecuted dependency; repaired by a fix: commit (the model is of the repaired code).",
+    technique="Lean 4 proof (invariant by induction over update_plan recursion and the run loop, rank-function argument) over hand-written model; exhaustive small-scope + random differential correspondence with exact visit logs",
+    ref="7/C04"),
 }
 
 NOT_APPLICABLE = {}
